@@ -610,3 +610,39 @@ def compat_spellings(tree, ref_tree):
     if count:
         ast.fix_missing_locations(tree)
     return count
+
+
+def complete_imports(tree, ref_tree):
+    """After adoption the view may name things the way the confirmed module does (``xzip``) although the current module
+    dropped that import: the view imports what it names, from where the confirmed module imports it.  Returns the
+    names added."""
+    bound = set()
+    for st in tree.body:
+        if isinstance(st, (ast.Import, ast.ImportFrom)):
+            for al in st.names:
+                bound.add((al.asname or al.name).split(".")[0])
+        elif isinstance(st, FuncTypes + (ast.ClassDef,)):
+            bound.add(st.name)
+        elif isinstance(st, ast.Assign):
+            for t in st.targets:
+                for n in ast.walk(t):
+                    if isinstance(n, ast.Name):
+                        bound.add(n.id)
+    used = {n.id for n in ast.walk(tree) if isinstance(n, ast.Name) and isinstance(n.ctx, ast.Load)}
+    added = []
+    for rst in ref_tree.body:
+        if not isinstance(rst, ast.ImportFrom):
+            continue
+        for al in rst.names:
+            nm = al.asname or al.name
+            if nm in used and nm not in bound and nm != "*":
+                home = [st for st in tree.body if isinstance(st, ast.ImportFrom) and st.module == rst.module and st.level == rst.level]
+                if home:
+                    home[0].names.append(ast.alias(name=al.name, asname=al.asname))
+                else:
+                    new = ast.ImportFrom(module=rst.module, names=[ast.alias(name=al.name, asname=al.asname)], level=rst.level)
+                    pos = max([i for i, st in enumerate(tree.body) if isinstance(st, (ast.Import, ast.ImportFrom))] + [-1]) + 1
+                    tree.body.insert(pos, ast.fix_missing_locations(ast.copy_location(new, tree.body[0] if tree.body else new)))
+                bound.add(nm)
+                added.append(nm)
+    return added
